@@ -801,9 +801,11 @@ def _extract_expr_closure(src, spec, ed, first, limit):
     if last < first:
         raise Undecided("lost anchor: empty closure body in %s" % name)
     for i in range(first, last + 1):
-        if toks[i].kind == "ident" and toks[i].text in ("return", "break", "continue"):
+        if toks[i].kind == "ident" and toks[i].text in ("break", "continue"):
             raise Undecided("closure body of %s contains `%s`" % (name, toks[i].text))
-        if toks[i].kind == "punct" and toks[i].text == "?":
+        if toks[i].kind == "ident" and toks[i].text == "return" and not spec.get("allow_return"):
+            raise Undecided("closure body of %s contains `return`" % name)
+        if toks[i].kind == "punct" and toks[i].text == "?" and not spec.get("allow_return"):
             raise Undecided("closure body of %s contains `?`" % name)
     header = "pub fn %s%s(%s)%s" % (name, spec.get("generics", ""), spec["params"],
                                     (" -> (%s: %s)" % (spec.get("ret", "out"), spec["ret_type"])) if spec.get("ret_type") else "")
@@ -813,8 +815,20 @@ def _extract_expr_closure(src, spec, ed, first, limit):
     ed.insert(toks[last].end, "\n}", order=5)
     F64_FIELDS[:] = spec.get("f64_fields", [])
     del SKIP[:]
+    e_lo, e_hi = toks[first].pos, toks[last].end
+    for (pat, repl, why) in spec.get("body_subst", []):
+        ms = list(re.finditer(pat, src.text[e_lo:e_hi]))
+        if not ms:
+            raise Undecided("lost anchor: body pattern %r not found in %s" % (pat, name))
+        for m in ms:
+            a, b = e_lo + m.start(), e_lo + m.end()
+            ed.replace(a, b, m.expand(repl), rule="%s %s" % (why, name))
+            ts = [i for i in range(first, last + 1) if a <= toks[i].pos < b]
+            if ts:
+                SKIP.append((ts[0], ts[-1] + 1))
     for r in spec.get("rules", ["R3", "R1", "R9", "R12", "R13", "R10"]):
         RULES[r](src, ed, first, last + 1, name)
+    del SKIP[:]
     ed.log.append("BLOCK %s: expression body of closure #%d (header %s) of `%s` emitted as fn %s(%s); the iterator chain it is passed to is not part of this unit" % (
         name, spec["closure"], spec.get("header_re", ""), spec["path"], name, spec["params"]))
     return toks[first].pos, toks[last].end
